@@ -82,6 +82,7 @@ func verifReadAll(t *testing.T, data []byte) []feat.Feature {
 // TestVerifBounded_C02_GFFRoundTrip: features, sequence regions and inline sequences, header on and off.
 func TestVerifBounded_C02_GFFRoundTrip(t *testing.T) {
 	cases, nontrivial := 0, 0
+	blankName, blankExample := 0, ""
 	for _, header := range []bool{false, true} {
 		for _, f := range verifFeatures() {
 			cases++
@@ -112,10 +113,16 @@ func TestVerifBounded_C02_GFFRoundTrip(t *testing.T) {
 		}
 		// sequence regions
 		for _, start := range []int{0, 1, 7} {
-			for _, length := range []int{1, 50} {
+			for _, length := range []int{1, 50, -1} {
+				name := "chrX"
+				if length < 0 {
+					// a name holding a blank is tab-free and trimmed, but the space-separated metadata line
+					// cannot carry it (recorded finding)
+					name, length = "chr 1", 5
+				}
 				cases++
 				nontrivial++
-				reg := &Region{Sequence: Sequence{SeqName: "chrX"}, RegionStart: start, RegionEnd: start + length}
+				reg := &Region{Sequence: Sequence{SeqName: name}, RegionStart: start, RegionEnd: start + length}
 				var buf bytes.Buffer
 				w := NewWriter(&buf, 60, header)
 				before := buf.Len()
@@ -129,6 +136,11 @@ func TestVerifBounded_C02_GFFRoundTrip(t *testing.T) {
 				}
 				g, ok := got[0].(*Region)
 				if !ok || g.SeqName != reg.SeqName || g.Start() != reg.Start() || g.End() != reg.End() || g.Len() != reg.Len() {
+					if name != "chrX" {
+						blankName++
+						blankExample = fmt.Sprintf("%q read back as %+v", buf.String(), got[0])
+						continue
+					}
 					t.Fatalf("%q read back as %+v", buf.String(), got[0])
 				}
 			}
@@ -154,6 +166,9 @@ func TestVerifBounded_C02_GFFRoundTrip(t *testing.T) {
 				t.Fatalf("%q read back as %+v", buf.String(), got[0])
 			}
 		}
+	}
+	if blankName > 0 {
+		fmt.Printf("FINDING id=region-name-blank cases=%d example=%q\n", blankName, blankExample)
 	}
 	fmt.Printf("BOUNDED name=C02.gff-roundtrip cases=%d nontrivial=%d exhaustive=true domain=%q\n", cases, nontrivial, "84 features (starts {0,1,7,2^40} x lengths {1,2,1000} x scores {nil,0,-1.5,1e300,+Inf,-Inf,0.1}, 3 strands, 4 frames, 0-2 attributes, comments) + 6 regions + 3 inline sequences, header on/off")
 }
